@@ -217,7 +217,12 @@ func checkSigner(s swap.Signer, pubHex string) error {
 }
 
 func (t *TokenWallet) GetOutputScript(params *swap.OpeningParams) ([]byte, error) {
-	return hex.DecodeString(TokenScript(params))
+	h, err := hex.DecodeString(TokenScript(params))
+	if err != nil {
+		return nil, err
+	}
+	// shaped like a P2WSH script so that watchers which parse it accept it
+	return append([]byte{0x00, 0x20}, h...), nil
 }
 
 func (t *TokenWallet) NewAddress() (string, error) { return "addr-" + t.p.N.Name, nil }
@@ -418,4 +423,17 @@ func (w *World) ExternalOpening(chain string, script string, value uint64, befor
 		return "", "", 0, err
 	}
 	return txid, txHex, vout, nil
+}
+
+// NewTokenWallet exposes the token wallet/validator for tests that plug in a real watcher.
+func NewTokenWallet(p *Proc, chain string) *TokenWallet { return &TokenWallet{p: p, chain: chain} }
+
+// ChainOf returns the simulated chain (for adapters living outside this package).
+func (w *World) ChainOf(name string) *Chain { return w.Chains[name] }
+
+// Locked runs f while holding the world lock (adapters reading chain state).
+func (w *World) Locked(f func()) {
+	w.mu.Lock()
+	defer w.mu.Unlock()
+	f()
 }
